@@ -1,7 +1,9 @@
 #!/bin/sh
+# seeded_recheck.sh <name>[=<ID>] ...: apply each named seeded change to a scratch tree of /repo (RECHECK_REPO, default
+# /tmp/try-repo: a git worktree of /repo, reset to /repo's HEAD first) and run the check of its property (or of <ID>).
 cd "$(dirname "$0")/.."
-R=/tmp/try-repo
-git -C $R checkout -q -- .; git -C $R clean -fdq; git -C $R checkout -q --detach $(git -C /repo rev-parse HEAD)
+R=${RECHECK_REPO:-/tmp/try-repo}
+git -C $R checkout -q -- .; git -C $R clean -fdq; [ -n "$RECHECK_REPO" ] || git -C $R checkout -q --detach $(git -C /repo rev-parse HEAD)
 for a in "$@"; do
   n=${a%%=*}
   d=seeded/$n
